@@ -83,6 +83,7 @@ func init() {
 			}
 			return Slice{A: s}
 		},
+		"internal/stringslite.Clone": func(e *Exec, _ *frame, _ *ssa.Function, a []Value) Value { return a[0] },
 		"strings.Clone": func(e *Exec, _ *frame, _ *ssa.Function, a []Value) Value { return a[0] },
 		"strings.Index": func(e *Exec, _ *frame, _ *ssa.Function, a []Value) Value {
 			return e.mkInt(int64(e.indexSub(a[0].(Str).B, a[1].(Str).B)))
